@@ -1,6 +1,7 @@
 mod arrgen;
 mod c01;
 mod c02;
+mod c17;
 mod probe;
 mod viewgen;
 mod c10;
@@ -45,6 +46,7 @@ fn main() {
     match prop.as_str() {
         "C01" | "C03" => c01::run(&mut ctx),
         "C02" | "C12" => c02::run(&mut ctx),
+        "C17" => c17::run(&mut ctx),
         "C10" => c10::run(&mut ctx),
         "C11" => c11::run(&mut ctx),
         "C13" => c13::run(&mut ctx),
